@@ -62,6 +62,7 @@ fn main() {
     match argv[1].as_str() {
         "worker" => worker(argv.get(2).map(|s| s.as_str()).unwrap_or("")),
         "session" => session::main_session(&args),
+        "probe" => session::main_probe(&args),
         "bvh" => bvhcheck::main_bvh(&args),
         "sched" => sched::main_sched(&args),
         "cli" => clicheck::main_cli(&args),
